@@ -595,6 +595,54 @@ def gen_C08(seed, tier):
     return gen_cs("c08", seed, tier, 32, 200, calls_C08, CS_CLASSES, fext_prob=0.4, baumgarte_prob=0.3)
 
 
+
+def calls_C10(g, mb, cb):
+    nv, nc = mb.nv, cb.nc
+    c = []
+    # (a) feasible pre-impact velocity (projected exactly), v+ = 0: unchanged, zero impulses
+    c.append("cs_vplus %d %s" % (nc, G.frs([F(0)] * nc)))
+    for method in (0, 1, 2):
+        c.append("cs_solver %d" % g.r.randint(0, 2))
+        c.append("call IMP %d" % method)
+    # (b) arbitrary pre-impact velocity, v+ = 0: kinetic energy must not increase
+    c.append("qd %d %s" % (nv, G.frs([g.small() for _ in range(nv)])))
+    for method in (0, 1, 2):
+        c.append("call IMP %d" % method)
+    # (c) prescribed post-impact constraint velocities
+    c.append("cs_vplus %d %s" % (nc, G.frs([g.small(-1, 1) for _ in range(nc)])))
+    for method in (0, 1, 2):
+        c.append("cs_solver %d" % g.r.randint(0, 2))
+        c.append("call IMP %d" % method)
+    return c
+
+
+def gen_C10(seed, tier):
+    return gen_cs("c10", seed, tier, 30, 200, calls_C10, CS_CLEAN)
+
+
+def calls_C11(g, mb, cb):
+    nv, nc = mb.nv, cb.nc
+    c = []
+    for rep in range(2):
+        # unactuated coordinates: between 1 and nc of them (full actuation needs rank(G P^T) = nu);
+        # the exact operator solves (G P^T) v = rhs, which is well posed for every desired
+        # acceleration only when G P^T is square: it is exercised with nu = nc
+        nu = min(nc, nv - 1) if rep == 0 else g.r.randint(1, min(nc, nv - 1))
+        un = set(g.r.sample(range(nv), nu))
+        act = [0 if k in un else 1 for k in range(nv)]
+        c.append("cs_actuation %d %s" % (nv, " ".join(str(a) for a in act)))
+        c.append("cs_solver %d" % g.r.randint(0, 2))
+        c.append("call FULLACT 1")
+        c.append("call IDCR 1")
+        if nu == nc:
+            c.append("call IDC 1")
+    return c
+
+
+def gen_C11(seed, tier):
+    return gen_cs("c11", seed, tier, 30, 200, calls_C11, CS_CLEAN, fext_prob=0.3)
+
+
 NOT_YET = {}
 
 COMMON_ASSUMPTIONS = ["double evaluation is compared with exact rational evaluation up to 1e-8*scale",
@@ -639,6 +687,14 @@ PROPS = {
     "C09": {"gen": gen_C09,
             "rule": "same constraint-set grammar as C08; CalcConstraintsJacobian / PositionError / VelocityError, gamma from CalcConstrainedSystemVariables (flag set and cleared)",
             "explanation": "monitor: G = d(phi')/d(qdot), velocity error = phi', gamma = -phi''(qddot = 0) - Baumgarte, from second-order jets of the constraint functions phi on the pose specification",
+            "assumptions": COMMON_ASSUMPTIONS},
+    "C10": {"gen": gen_C10,
+            "rule": "constraint sets of the finding-free classes (contacts, loops with predecessor = base, ball loops); per case: a feasible pre-impact velocity with v+ = 0, an arbitrary velocity with v+ = 0, prescribed v+; three methods x random solver",
+            "explanation": "certificates with the specification: G qdot+ = v+, H (qdot+ - qdot-) + G^T Lambda = 0, agreement of the methods, kinetic energy not increased for v+ = 0, feasible velocity returned unchanged",
+            "assumptions": COMMON_ASSUMPTIONS},
+    "C11": {"gen": gen_C11,
+            "rule": "constraint sets of the finding-free classes on fixed- and floating-base models; two random actuation maps per case with 1..nc unactuated coordinates; isConstrainedSystemFullyActuated, the relaxed operator always, the exact operator checked when G P^T has full column rank (exact rank over Q)",
+            "explanation": "certificates with the specification: G qddot = gamma, tau zero on unactuated coordinates, H qddot + N = tau + G^T lambda, actuated accelerations reproduced by the exact operator; full-actuation test against the exact rank of G P^T",
             "assumptions": COMMON_ASSUMPTIONS},
     "C12": {"gen": gen_C12, "rule": RULE_MODELS + "; random contact plane (unit normal, point off the origin)", "explanation": "monitor: definitions of mass, CoM, momentum, energies, ZMP on jets of the pose specification",
             "assumptions": COMMON_ASSUMPTIONS},
